@@ -28,6 +28,10 @@
     9b9a9e0, 1a86e66): `MultiPolygon` returns its input whole only when every outer ring is inside;
     `clipRings` re-joins whenever `r[0] == r[len(r)-1]` and drops zero-length boundary pieces;
     `Before` of a start endpoint is `ls[1]`; `Less` orders coincident endpoints by cross product.
+  * fix C16-5: `smartWrap` remembers the index of the piece the ring under construction began with
+    (`WrapSt.first`) and takes the loop for complete only at THAT piece's start (`ep.Index == first &&
+    ep.Point.Equal(current[0])`): the start of another piece in the same point (a hole touching the shell
+    on the box side) is stitched in, not mistaken for the end of the loop.
 -/
 import Orb.Basic
 import Orb.Core
@@ -346,6 +350,8 @@ structure WrapSt (α : Type) where
   points : List (Endpoint α)
   current : List (Pt α)
   result : List (List (List (Pt α)))
+  /-- `first`: index of the piece `current` starts with (fix C16-5) -/
+  first : Nat := 0
 
 /-- the stitching loop `for i := 0; i < 2*len(points); i++`.  `i` is the value of the loop variable
     at the loop test.  (`r[2:]` of the connecting ring is kept as `rTail`: `emptyTwoRing[2:] = []`.) -/
@@ -365,7 +371,7 @@ def wrapLoop (box : Bound α) (input : List (List (Pt α))) (o : Int) (n : Nat) 
           | none => .panic "index out of range"
           | some piece =>
             wrapLoop box input o n fuel
-              { st with current := piece, points := st.points.set k { ep with used := true } } (i+1)
+              { st with current := piece, first := ep.index, points := st.points.set k { ep with used := true } } (i+1)
         else wrapLoop box input o n fuel st (i+1)
       else if st.current.isEmpty then wrapLoop box input o n fuel st (i+1)
       else
@@ -377,10 +383,11 @@ def wrapLoop (box : Bound α) (input : List (List (Pt α))) (o : Int) (n : Nat) 
             else do
               let r ← aroundBound box [ep.point, cl] o
               pure (r.drop 2) : Res String (List (Pt α)))
-          if Core.ptEq ep.point cf then
-            -- loop complete
+          if ep.index == st.first && Core.ptEq ep.point cf then
+            -- loop complete: back at the start of the piece the ring began with (fix C16-5: the start of
+            -- ANOTHER piece in the same point — two rings touching there — goes on)
             let ring := st.current ++ rTail
-            wrapLoop box input o n fuel { points := pts1, current := [], result := st.result ++ [[ring]] } 0
+            wrapLoop box input o n fuel { points := pts1, current := [], result := st.result ++ [[ring]], first := st.first } 0
           else
             match input[ep.index]? with
             | none => .panic "index out of range"
@@ -388,7 +395,7 @@ def wrapLoop (box : Bound α) (input : List (List (Pt α))) (o : Int) (n : Nat) 
               let cur := st.current ++ (if rTail.isEmpty then [] else rTail.dropLast) ++ piece
               if ep.otherEnd ≥ pts1.length then .panic "index out of range" else
               let pts2 := pts1.modify ep.otherEnd fun e => { e with used := true }
-              wrapLoop box input o n fuel { points := pts2, current := cur, result := st.result } (ep.otherEnd + 1)
+              wrapLoop box input o n fuel { points := pts2, current := cur, result := st.result, first := st.first } (ep.otherEnd + 1)
         | _, _ => .panic "index out of range"
 
 /-- `smartWrap(box, input, o)` -/
